@@ -72,7 +72,8 @@ pub fn run(cx: &Cx) -> (Acc, Value) {
 fn campaign(cx: &Cx, target: &str, acc: &mut Acc) -> Value {
     // Fixed amounts of work (about two to three minutes each on this machine), not time quotas.
     let default_runs = match target {
-        "range_diff" => 600_000,
+        "range_diff" | "cond_diff" | "fsdir_path" => 600_000,
+        "serve_sem" => 25_000,
         "accept_encoding" => 300_000,
         "serve_total" => 150_000,
         _ => 40_000,
